@@ -49,6 +49,11 @@ BASES = {
     "SubscribeCOV-confirmed": H(NP_REQ + "00050805" + "0902" + "1C01400001" + "2901" + "3903"),
     "AtomicReadFile": H(NP_REQ + "00050606" + "C402800001" + "0E" + "3100" + "210A" + "0F"),
     "AtomicWriteFile": H(NP_REQ + "00050C07" + "C402800001" + "0E" + "3100" + "63616263" + "0F"),
+    "PrivateTransfer-acknowledged": H(NP_REQ + "00050D12" + "0903" + "1901"),
+    "PrivateTransfer-application-raises-abort": H(NP_REQ + "00050E12" + "0903" + "1902"),
+    "PrivateTransfer-application-sends-abort": H(NP_REQ + "00050F12" + "0903" + "1903"),
+    "PrivateTransfer-application-raises-reject": H(NP_REQ + "00051012" + "0903" + "1904"),
+    "PrivateTransfer-application-raises-error": H(NP_REQ + "00051112" + "0903" + "1905"),
     "unregistered-service": H(NP_REQ + "00050755" + "0901"),
     "DeviceCommunicationControl": H(NP_REQ + "00050A11" + "1900"),
     "DeviceCommunicationControl-full": H(NP_REQ + "00050B11" + "0901" + "1900" + "2A0061"),
@@ -442,12 +447,40 @@ def pair_case(level, name_a, name_b):
     return dev, problems, obs
 
 
+def first_segment(invoke):
+    """First segment of a segmented ReadProperty request (more follows, window 4) with the given invoke ID: the rest never
+    comes, so the device is left in the middle of a reassembly."""
+    return H(NP_REQ + "0C05") + bytes([invoke]) + H("0004" + "0C" + "0C02000001")
+
+
+def collision_case(level, name_b, order):
+    """A reassembly is open for invoke ID N from the tester; a valid unsegmented request with the same ID arrives (order
+    'segment-first'), or the valid request comes first and the lone segment afterwards."""
+    fb = wrap(level, BASES[name_b])
+    cb = devref.classify(fb, level)
+    seg = wrap(level, first_segment(cb["invoke"]))
+    frames = [seg, fb] if order == "segment-first" else [fb, seg]
+    return run_frames(level, frames)
+
+
 def pair_shard(item, deadline):
     acc = Acc()
     for (level, a, b) in item:
         if time.time() > deadline:
             acc.cap("deadline inside the pair sweep")
             break
+        if a in ("segment-first", "segment-after"):
+            dev, problems, obs = collision_case(level, b, a)
+            acc.case((level, "collision", a, b))
+            acc.traces += 1
+            acc.transitions += 3
+            acc.state((level, "collision", tuple(obs), bool(problems)))
+            acc.outcome("collision:%s:%s" % (a, "ok" if not problems else problems[0][0]))
+            for prob, detail in problems:
+                acc.fail(root_cause(dev, "collision:%s:%s" % (a, prob)), {"problem": prob, "detail": detail, "level": level, "request": b,
+                                                                          "order": a, "device_sent": obs},
+                         {"pair": True, "level": level, "first": a, "then": b})
+            continue
         dev, problems, obs = pair_case(level, a, b)
         acc.case((level, "pair", a, b))
         acc.traces += 2
@@ -540,6 +573,9 @@ def run(tier, seed, deadline):
     run_shards(nb_shard, chunks(nb, 8), deadline, into=acc)
     # pairs of valid frames
     pairs = [(level, a, b) for level in ("lan", "ip") for a in BASES for b in BASES]
+    # a lone first segment and a valid unsegmented request with the same invoke ID, in both orders
+    pairs += [(level, order, b) for level in ("lan", "ip") for order in ("segment-first", "segment-after") for b in BASES
+              if devref.classify(wrap(level, BASES[b]), level)["judged"]]
     acc.info["pairs of valid frames"] = len(pairs)
     run_shards(pair_shard, chunks(pairs, 16), deadline, into=acc)
     # the device as a foreign device (BIPForeign below the network layer) whose registration is unanswered, acknowledged
@@ -563,6 +599,10 @@ def run(tier, seed, deadline):
 
 def replay(case):
     vclock.install()
+    if case.get("pair") and case["first"] in ("segment-first", "segment-after"):
+        dev, problems, obs = collision_case(case["level"], case["then"], case["first"])
+        return not problems, "level=%s lone first segment and %s with the same invoke ID (%s)\ndevice sent=%r\nproblems=%r" % (
+            case["level"], case["then"], case["first"], obs, problems)
     if case.get("pair"):
         dev, problems, obs = pair_case(case["level"], case["first"], case["then"])
         return not problems, "level=%s first=%s then=%s\ndevice sent=%r\nproblems=%r" % (case["level"], case["first"], case["then"], obs, problems)
